@@ -91,3 +91,16 @@ func (l *Local) VerifSync() { l.sync() }
 
 // VerifSyncPool runs one balancer pass.
 func (m *Manager) VerifSyncPool(ctx context.Context) { m.syncPool(ctx) }
+
+// VerifCRDV2MultiIP runs the daemon's lookup of the addresses the cluster IPAM bound to a pod (CRDV2.multiIP) against the
+// given client; no manager, no background loops.
+func VerifCRDV2MultiIP(ctx context.Context, c client.Client, nodeName string, cni *daemon.CNI) *AllocResp {
+	r := &CRDV2{client: c, nodeName: nodeName, deletedPods: map[string]*podENITypes.RuntimePodStatus{}}
+	ch, _ := r.multiIP(ctx, cni, NewLocalIPRequest())
+	select {
+	case resp := <-ch:
+		return resp
+	case <-ctx.Done():
+		return nil
+	}
+}
